@@ -1072,4 +1072,49 @@ def replace {σ : Type} (fx : Fix) (drv : σ → Op → σ × Res) (s : σ) (col
 
 end Api
 
+/-! ## Mongo driver: identifiers (`drivers/persist/mongo.py` `_id_to_db` / `_id_from_db`) -/
+
+namespace Mongo
+
+/-- what the driver hands to the engine as `_id`: the string itself, or a 12-byte `bson.ObjectId` -/
+inductive DbId where
+  | str (s : Str)
+  | oid (bytes : List Nat)
+  deriving Repr, DecidableEq
+
+/-- `[0-9a-f]` -/
+def isLowerHex (c : Nat) : Bool := (48 ≤ c && c ≤ 57) || (97 ≤ c && c ≤ 102)
+
+/-- `_OBJECT_ID_RE = '^[0-9a-f]{24}$'` (`$` also matches before a final newline: the 25-character case) -/
+def isOidText (s : Str) : Bool :=
+  (s.length == 24 && s.all isLowerHex) || (s.length == 25 && (s.take 24).all isLowerHex && s.drop 24 == [10])
+
+/-- `bytes.fromhex` on an even number of hex digits (either case) -/
+def hexBytes : Str → Option (List Nat)
+  | [] => some []
+  | [_] => none
+  | a :: b :: t =>
+    match hexVal a, hexVal b, hexBytes t with
+    | some x, some y, some r => some ((x * 16 + y) :: r)
+    | _, _, _ => none
+
+/-- `str(ObjectId)` = lower-case hex of the bytes -/
+def bytesHex : List Nat → Str
+  | [] => []
+  | b :: t => hexDigit (b / 16 % 16) :: hexDigit (b % 16) :: bytesHex t
+
+/-- `_id_to_db`: strings that look like an ObjectId become one (`bson.ObjectId(id_)` raises `InvalidId` for
+anything but 24 hex digits: the `none` branch) -/
+def idToDb (s : Str) : Option DbId :=
+  if isOidText s then
+    (if s.length = 24 then hexBytes s else none).map .oid
+  else some (.str s)
+
+/-- `_id_from_db` -/
+def idFromDb : DbId → Str
+  | .oid b => bytesHex b
+  | .str s => s
+
+end Mongo
+
 end QtVerif.Store
